@@ -488,7 +488,7 @@ def real_crash(ctx, mon, oracle):
                     os.remove(p)
             child = (
                 "import builtins, os, sys\n"
-                "sys.path.insert(0, '/repo')\n"
+                "sys.path.insert(0, %r)\n"
                 "K=%d\n"
                 "real_open=builtins.open\n"
                 "class F:\n"
@@ -510,7 +510,7 @@ def real_crash(ctx, mon, oracle):
                 "from parglare import Grammar, Parser\n"
                 "with contextlib.redirect_stdout(io.StringIO()):\n"
                 "    Parser(Grammar.from_file(%r))\n"
-            ) % (k, d.root)
+            ) % (os.environ.get("PGV_REPO", "/repo"), k, d.root)
             r = subprocess.run([sys.executable, "-c", child], capture_output=True, timeout=120, env={"PYTHONDONTWRITEBYTECODE": "1", "PATH": os.environ.get("PATH", "")})
             ctx.count("op.real_crash")
             ctx.seen("real_crash.child_exit", str(r.returncode))
